@@ -48,9 +48,30 @@ first={ # detection on first pass, strengthening
 'C18-w5-m1':('MISSED at first (every literal node was evaluated once)','functions containing map and vector literals called several times with different arguments'),
 'C18-w5-m2':('MISSED at first (no init form read the outer binding of the name it shadows)','let forms whose init forms read the shadowed outer binding'),
 'C18-w5-m3':('caught at once',None),
+'C02-w6-m1':('caught at once',None),
+'C02-w6-m2':('MISSED at first (no function carried a pool map as metadata)','functions defined with a pool map as metadata, two functions sharing one metadata map'),
+'C02-w6-m3':('MISSED at first (json-decode was not among the operations)','json-decode with pool maps and vectors as prototype argument'),
+'C03-w6-m1':('caught at once',None),
+'C03-w6-m2':('caught at once',None),
+'C03-w6-m3':('MISSED at first (nothing was thrown inside a callback of update-in)','throws inside callbacks of update, update-in (paths of 2 and 3), map, swap!, reduce'),
+'C07-w6-m1':('HARNESS TROUBLE at first (the self-test treated a leak between runs of one process as a difference between process configurations); caught after the self-test sends every in-process difference to the one-process-per-run mode',None),
+'C07-w6-m2':('MISSED at first (every handler probe sat at the start of the evaluation)','handler probes in tail position of do / let / a function body after a prefix that uses up 20-65% of the deadline'),
+'C07-w6-m3':('MISSED at first (no program made status calls on a finished future twice)','loops preceded by repeated future-cancel / future-done? on finished and cancelled futures'),
+'C09-w6-m1':('caught at once',None),
+'C09-w6-m2':('caught at once (race oracle; printing became an operation of the history after the LispPrint defect)',None),
+'C09-w6-m3':('HARNESS TROUBLE at first (behaviour depends on GOMAXPROCS: the self-test compared GOMAXPROCS=1 with 16); caught after GOMAXPROCS became a per-worker knob recorded in replay files',None),
+'C10-w6-m1':('HARNESS TROUBLE, not caught: the change adds a select between a slot of a package-level semaphore and ctx.Done(); when both are ready Go chooses at random, the self-test reports the nondeterminism and the check ends with exit 2 (see DESIGN.md §10)',None),
+'C10-w6-m2':('caught at once (race oracle)',None),
+'C10-w6-m3':('caught at once',None),
+'C11-w6-m1':('caught at once',None),
+'C11-w6-m2':('MISSED at first (no self-tail-recursive loop created futures or closures per turn)','tail loops whose turns start futures / make closures that outlive the turn'),
+'C11-w6-m3':('MISSED at first (every shared function had been called during set-up)','shared functions with macro calls in argument position that nobody has called before the concurrent programs do (race oracle)'),
+'C18-w6-m1':('MISSED at first (no uncaught error came from the outermost form of a macro expansion)','macros whose expansion is the failing call, nothing catching the error'),
+'C18-w6-m2':('MISSED at first (the evaluation as a whole was never cancelled)','fault host-cancel (a builtin cancels the whole evaluation) and try forms whose handler value is not a call'),
+'C18-w6-m3':('caught at once',None),
 }
 rows=[]
-for d in sorted(glob.glob('/verif/seeded/*-w[45]-m*')):
+for d in sorted(glob.glob('/verif/seeded/*-w[456]-m*')):
     id=os.path.basename(d)
     notes=open(d+'/NOTES.md').read()
     head=notes.splitlines()[0]
@@ -58,6 +79,8 @@ for d in sorted(glob.glob('/verif/seeded/*-w[45]-m*')):
     m=re.search(r'## What is needed[^\n]*\n+(.*?)(?:\n## |\Z)',notes,re.S)
     needs=' '.join(m.group(1).split())[:400] if m else ''
     det,stren=first[id]
+    if id not in clauses and os.path.exists(d+'/meta.json'):
+        continue  # keep what an earlier regression recorded
     v,cl=clauses.get(id,('?',''))
     meta={"id":id,"property":id[:3],"wave":int(id[5]),"what_it_changes":what,"needs_to_manifest":needs,
      "confirmed":{"how":"tools/confirm_mutant.sh in a scratch worktree of /repo HEAD: patch applies, go build ok, 48 baseline tests pass with the patch, demonstration passes without and fails with the patch","result":"confirmed"},
@@ -67,5 +90,5 @@ for d in sorted(glob.glob('/verif/seeded/*-w[45]-m*')):
      "clauses_reporting_it":cl}
     json.dump(meta,open(d+'/meta.json','w'),indent=1,ensure_ascii=False)
     rows.append("| %s | %s | %s | %s |"%(id,what.replace('|','/'),meta['detection'].replace('|','/'),cl))
-open('/tmp/w45rows.md','w').write('\n'.join(rows)+'\n')
-print(len(rows),sum(1 for r in clauses if '-w4-' in r or '-w5-' in r))
+open('/tmp/w456rows.md','w').write('\n'.join(rows)+'\n')
+print(len(rows),sum(1 for r in clauses if '-w4-' in r or '-w5-' in r or '-w6-' in r))
